@@ -30,12 +30,12 @@ def grid_row(p, q, child_dom=None, idx=None):
     return tuple(row)
 
 
-def grid_world(domkey="D", cls="Item", with_ref=True, pairs=None):
+def grid_world(domkey="D", cls="Item", with_ref=True, pairs=None, kid_cls=None):
     pairs = pairs or [(p, q) for p in (1, 2, 3) for q in (1, 2, 3)] + [(2, 2)]
     out = []
     if with_ref:
         kids = tuple((("p", q), ("q", p), ("flag", p > q), ("s", "k" * q)) for p, q in pairs)
-        out.append((domkey + "k", cls, kids))
+        out.append((domkey + "k", kid_cls or cls, kids))
     rows = tuple(grid_row(p, q, domkey + "k" if with_ref else None, i) for i, (p, q) in enumerate(pairs))
     out.append((domkey, cls, rows))
     return tuple(out)
